@@ -122,6 +122,10 @@ func (viso *VirtualISO) init() error {
 			return fmt.Errorf("getTitleID failed: %w", err)
 		}
 
+		// product id is written as XXXX-YYYYY to a 32-byte field
+		if len(gameCode) < 4 || len(gameCode) > 31 {
+			return fmt.Errorf("unexpected TITLE_ID %q", gameCode)
+		}
 		volumeName = ps3ModeVolumeName
 	} else {
 		_, volumeName = filepath.Split(viso.root)
